@@ -203,20 +203,20 @@ theorem b64urlDecode_b64urlEncode (b : Bytes) : b64urlDecode (b64urlEncode b) = 
   rw [b64urlEncode_eq, replace_dec, map_rDec_rEnc]
   have hlen := encBody_length b
   by_cases h0 : b.length % 3 = 0
-  · have h4 : (encBody b).length % 4 = 0 := by rw [hlen]; simp [h0]
+  · have h4 : (encBody b).length % 4 = 0 := by rw [hlen]; split <;> omega
     have n2 : ¬ (encBody b).length % 4 = 2 := by omega
     have n3 : ¬ (encBody b).length % 4 = 3 := by omega
     simp only [n2, n3, if_false]
     have := b64decode_padded b [] (Or.inl rfl) (by simpa using h4)
     simpa using this
   · by_cases h1 : b.length % 3 = 1
-    · have h4 : (encBody b).length % 4 = 2 := by rw [hlen]; simp [h0, h1]; omega
+    · have h4 : (encBody b).length % 4 = 2 := by rw [hlen]; split <;> omega
       simp only [h4, if_true]
       exact b64decode_padded b [61, 61] (Or.inr (Or.inr rfl)) (by simp; omega)
     · have h2 : b.length % 3 = 2 := by omega
-      have h4 : (encBody b).length % 4 = 3 := by rw [hlen]; simp [h0, h2]; omega
+      have h4 : (encBody b).length % 4 = 3 := by rw [hlen]; split <;> omega
       have n2 : ¬ (encBody b).length % 4 = 2 := by omega
-      simp only [n2, h4, if_true, if_false]
+      rw [if_neg n2, if_pos h4]
       exact b64decode_padded b [61] (Or.inr (Or.inl rfl)) (by simp; omega)
 
 theorem b64urlEncode_injective {a b : Bytes} (h : b64urlEncode a = b64urlEncode b) : a = b := by
